@@ -502,7 +502,26 @@ def run_interval_cases(ctx, name, imports, goals, shards=None, timeout=900, setu
         if "Error" in o and "CASE" not in o.split("Error")[-1]:
             ctx.log("   case shard error: " + o[-600:].replace("\n", " | "))
             _note_unloadable(ctx, name, o)
-    for cid, _, _ in goals:
+    # goals without a verdict (their shard timed out or crashed): retry them once, alone and with a longer limit; what still has
+    # no verdict is NOT a model/implementation disagreement — it is reported as an unchecked obligation
+    missing = [g for g in goals if str(g[0]) not in res]
+    if missing and not getattr(ctx, "cases_unloadable", False) and not getattr(ctx, "_retrying", False):
+        ctx._retrying = True
+        try:
+            ctx.log(f"   {len(missing)} goal(s) without a verdict (shard timeout/crash): retrying once")
+            sub = run_interval_cases(ctx, name + "_retry", imports, missing, shards=min(NCPU, len(missing)), timeout=2 * timeout, setup=setup)
+            ctx.cov["obligations"] -= len(missing)
+            ctx.cov["discharged"] -= sum(1 for v in sub.values() if v)
+            res.update({k: v for k, v in sub.items() if k in {str(g[0]) for g in missing}})
+        finally:
+            ctx._retrying = False
+    still = [str(g[0]) for g in goals if str(g[0]) not in res]
+    if still and not getattr(ctx, "_retrying", False):
+        ctx.proof_failures.append((f"Cases/{name}", "no-verdict", f"{len(still)} generated goal(s) got no verdict from coqc (time limit): {', '.join(still[:6])}"))
+        ctx.cov["unchecked_cases"] = ctx.cov.get("unchecked_cases", 0) + len(still)
+    if still and not getattr(ctx, "_retrying", False):
+        ctx.cases_unloadable = True     # S4 'disagreement' lines for unchecked goals are suppressed; the no-verdict obligation reports them
+    for cid, _, _ in goals:             # every goal gets an entry (plugins index the result by case id)
         res.setdefault(str(cid), False)
     nok = sum(1 for v in res.values() if v)
     ctx.log(f"S4 {name}: {nok}/{len(goals)} correspondence goals closed by coqc in {time.time()-t:.1f}s ({len(files)} shards)")
